@@ -264,6 +264,9 @@ func writeJSON(path string, v interface{}) error {
 // addContractPkgs: keeper- and ante-level checks talk about several modules (ghost stores, preludes, interface
 // implementations), so as soon as a selected package is not a leaf `types` package every package that carries a
 // contract file is loaded.
+// repoRoot: the directory the repository is loaded from (set by the -repo flag)
+var repoRoot = "/repo"
+
 func addContractPkgs(pkgSet map[string]bool, cs *ContractSet) {
 	leafOnly := true
 	for p := range pkgSet {
@@ -276,7 +279,7 @@ func addContractPkgs(pkgSet map[string]bool, cs *ContractSet) {
 	}
 	for _, f := range cs.Files {
 		if strings.HasSuffix(f, "zz_contracts_verif.go") {
-			rel := strings.TrimPrefix(filepath.Dir(f), "/repo")
+			rel := strings.TrimPrefix(filepath.Dir(f), repoRoot)
 			pkgSet[repoModule+rel] = true
 		}
 	}
